@@ -129,7 +129,7 @@ pub fn describe(name: &str) -> String {
     let leaves = LEAVES[..k].join("|");
     match role {
         'f' => format!("pipe shape={} leaves={} static={}", shape, leaves, name),
-        'k' => format!("pipe shape={} leaves={} sink=sink_collect static={}", shape, leaves, name),
+        'k' => format!("pipe shape={} leaves={} sink=own_collect static={}", shape, leaves, name),
         _ => format!("pipe shape={} leaves={} source={} static={}", shape, leaves, SOURCE, name),
     }
 }
